@@ -39,6 +39,11 @@ func NewWeekFromString(yyyyWww string) (Week, error) {
 			ref = ref.PlusDays(-1)
 		}
 		_, w := ref.WeekNumber()
+		if week > 53 || (ref.Year() == 9999 && week > 52) {
+			// There are at most 53 weeks in a year, and week 52 is the last
+			// one whose Monday is still within the representable date range.
+			return nil, errors.New("INVALID_WEEK_PERIOD")
+		}
 		ref = ref.PlusDays((week - w) * 7)
 		return ref, nil
 	}()
@@ -59,11 +64,17 @@ func (w Week) Period() Period {
 		if since.Weekday() == 1 {
 			break
 		}
+		if since.Year() == 0 && since.Month() == 1 && since.Day() == 1 {
+			break // First representable date
+		}
 		since = since.PlusDays(-1)
 	}
 	for {
 		if until.Weekday() == 7 {
 			break
+		}
+		if until.Year() == 9999 && until.Month() == 12 && until.Day() == 31 {
+			break // Last representable date
 		}
 		until = until.PlusDays(1)
 	}
